@@ -15,7 +15,7 @@ import regen_c01
 PID = "C01"
 sys.set_int_max_str_digits(0)
 THEOREMS = ["ivt_inverse", "ivt_words_untouched_elsewhere", "ivt_words_describe", "flags_decode", "len_is_sum_plain_crc",
-            "mbi_roundtrip_plain_crc", "repaired_findings_hold", "reloc_table_roundtrip", "reexport_stable", "mro_resolution_all_classes", "wf_class_sweep",
+            "mbi_roundtrip_plain_crc", "mbi_roundtrip_signed_v1", "mbi_roundtrip_signed_v21", "repaired_findings_hold", "reloc_table_roundtrip", "reexport_stable", "mro_resolution_all_classes", "wf_class_sweep",
             "class_selection_sweep", "class_selection_refuted", "manifest_flags_and_is_bitwise", "disassemble_cuts_collect",
             "hmac_finalize_inverse"]
 MIXIN_IDS = regen_c01.MIXIN_IDS
@@ -728,7 +728,7 @@ def run(tier):
     except Exception as ex:  # noqa
         rep.obligation("translate:device database + mbi_mixin classes -> Gen/GenMbi.v", False, repr(ex))
     model_ok, mlog = vlib.coq_make(["Model/MbiIoModel.vo"])
-    vlib.check_theorems(rep, PID, THEOREMS, ["Proofs/MbiProofs.vo", "Proofs/MbiRtProofs.vo", "Proofs/MbiSweepProofs.vo"])
+    vlib.check_theorems(rep, PID, THEOREMS, ["Proofs/MbiProofs.vo", "Proofs/MbiRtProofs.vo", "Proofs/MbiKindsProofs.vo", "Proofs/MbiSweepProofs.vo"])
     vlib.audit(rep)
     if d is None:
         try:
